@@ -5,7 +5,11 @@ Executable statements of the property over *observations*, independent of the mo
 
 * `sharedViolation` — reference-counted handles: the underlying connection's `Close` is called exactly
   once, at the close of the last distinct handle; closing a handle fails that handle's parked and later
-  I/O; I/O of a sibling whose handle is open does not fail.
+  I/O; I/O of a sibling whose handle is open does not fail — neither as closed, nor with a deadline error
+  under a write deadline whose arming handle has been CLOSED / aborted (the `SetDeadline(now)` of
+  `candidateBase.abortIO` must not outlive the handle).  The write deadline of the connection is shared by
+  design between the LIVE handles: a timeout under a deadline that a still-open handle holds is no violation.
+  Read deadlines are per handle: a read times out only under the handle's own read deadline.
 * `histViolation` / `quiescentViolation` — write abort: whenever no write and no abort is in flight,
   `writeState` is 0, the last value written to the socket's write-deadline register is zero (the
   deadline is not armed) and a write issued then succeeds.
@@ -18,7 +22,7 @@ namespace IceSpec.C13
 /-! ## Reference-counted handles -/
 
 inductive IOKind where
-  | read | write | setrd | setwd
+  | read | write
   deriving DecidableEq, Repr
 
 inductive IORes where
@@ -32,6 +36,12 @@ inductive SObs where
       `rel` = parked reads of this handle that returned with a closed error -/
   | closed (h : Nat) (u : Nat) (rel : Nat)
   | io (h : Nat) (k : IOKind) (r : IORes)
+  /-- a deadline setter was called on handle `h`: `rd`/`wr` = it sets the read / the write deadline
+      (`SetReadDeadline` = rd, `SetWriteDeadline` = wr, `SetDeadline` = both); `past` = to a time in the past -/
+  | dl (h : Nat) (rd wr : Bool) (past : Bool) (r : IORes)
+  /-- the `abortIO` sequence on handle `h` (`SetDeadline(now)`, `abortWrite`, `Close`) returned `r` (first
+      error, else ok); `u`, `rel` as for `closed` -/
+  | aborted (h : Nat) (r : IORes) (u : Nat) (rel : Nat)
   /-- a datagram was delivered; `rel = some h`: it completed the parked read of handle `h` -/
   | fed (rel : Option Nat)
   | skip
@@ -44,14 +54,41 @@ structure SMon where
   parked : List Nat := []
   /-- `Close` calls of the underlying connection seen so far -/
   u : Nat := 0
+  /-- per handle: the handle ITSELF last set its read deadline to a time in the past -/
+  ownRd : List Bool := []
+  /-- per handle: the handle is open and ITSELF last set its write deadline to a time in the past (it *holds* a
+      write deadline on the shared connection); reset when the handle is closed / aborted -/
+  ownWd : List Bool := []
   deriving DecidableEq, Repr
 
+def disturbedWrite : String :=
+  "write of an open handle timed out under a write deadline that outlived the closed handle that armed it"
+def disturbedRead : String :=
+  "read of an open handle timed out under a read deadline it did not set"
+
+/-- some open handle holds a past write deadline -/
+def SMon.held (m : SMon) : Bool := m.ownWd.any id
+
 def SMon.nOpen (m : SMon) : Nat := m.isOpen.countP id
+
+/-- the clauses for `Close` of handle `h` (also the last step of `abortIO`) -/
+def closeClause (m : SMon) (h u rel : Nat) : SMon × Option String :=
+  let last := m.nOpen = 1
+  let want := if last then m.u + 1 else m.u
+  let m' := { m with isOpen := m.isOpen.set h false, parked := m.parked.set h 0, u := u, ownWd := m.ownWd.set h false }
+  (m',
+   if u > want then
+     (if last then some "underlying connection closed more than once"
+      else some "underlying connection closed while sibling handles are open")
+   else if u < want then some "underlying connection not closed at the close of the last handle"
+   else if rel ≠ m.parked.getD h 0 then some "close did not release exactly this handle's parked reads"
+   else none)
+
 
 /-- What C13 demands of one observation; returns the updated monitor and the first failed clause. -/
 def sharedViolation (m : SMon) : SObs → SMon × Option String
   | .opened id =>
-    ({ m with isOpen := m.isOpen ++ [true], parked := m.parked ++ [0] },
+    ({ m with isOpen := m.isOpen ++ [true], parked := m.parked ++ [0], ownRd := m.ownRd ++ [false], ownWd := m.ownWd ++ [false] },
      if id ≠ m.isOpen.length then some "handle ids are not consecutive" else none)
   | .closed h u rel =>
     match m.isOpen[h]? with
@@ -60,17 +97,27 @@ def sharedViolation (m : SMon) : SObs → SMon × Option String
       -- repeated Close of one handle: nothing may change
       (m, if u ≠ m.u then some "repeated Close of one handle closed the underlying connection again"
           else if rel ≠ 0 then some "repeated Close released reads" else none)
+    | some true => closeClause m h u rel
+  | .aborted h r u rel =>
+    match m.isOpen[h]? with
+    | none => (m, some "abort of an unknown handle")
+    | some false =>
+      (m, if r ≠ .errClosed then some "I/O on a closed handle did not fail"
+          else if u ≠ m.u then some "repeated Close of one handle closed the underlying connection again"
+          else if rel ≠ 0 then some "repeated Close released reads" else none)
     | some true =>
-      let last := m.nOpen = 1
-      let want := if last then m.u + 1 else m.u
-      let m' := { m with isOpen := m.isOpen.set h false, parked := m.parked.set h 0, u := u }
-      (m',
-       if u > want then
-         (if last then some "underlying connection closed more than once"
-          else some "underlying connection closed while sibling handles are open")
-       else if u < want then some "underlying connection not closed at the close of the last handle"
-       else if rel ≠ m.parked.getD h 0 then some "close did not release exactly this handle's parked reads"
-       else none)
+      -- the handle armed its OWN deadlines (SetDeadline(now)) and is closed: it holds nothing any more
+      let (m', why) := closeClause { m with ownRd := m.ownRd.set h true } h u rel
+      (m', if r ≠ .ok then some "abortIO of an open handle failed" else why)
+  | .dl h rd wr past r =>
+    match m.isOpen[h]? with
+    | none => (m, some "I/O on an unknown handle")
+    | some false =>
+      (m, if r ≠ .errClosed then some "I/O on a closed handle did not fail" else none)
+    | some true =>
+      ({ m with ownRd := if rd then m.ownRd.set h past else m.ownRd, ownWd := if wr then m.ownWd.set h past else m.ownWd },
+       if r = .errClosed then some "I/O of an open handle failed as closed (disturbed by a sibling)"
+       else if r ≠ .ok then some "write/deadline call on an open handle did not succeed" else none)
   | .io h k r =>
     match m.isOpen[h]? with
     | none => (m, some "I/O on an unknown handle")
@@ -82,8 +129,12 @@ def sharedViolation (m : SMon) : SObs → SMon × Option String
        if r = .errClosed then some "I/O of an open handle failed as closed (disturbed by a sibling)"
        else if r = .other then some "unexpected I/O result"
        else match k with
-         | .write | .setrd | .setwd => if r ≠ .ok then some "write/deadline call on an open handle did not succeed" else none
-         | .read => if r = .ok then some "unexpected read result" else none)
+         | .write =>
+           if r = .errTimeout then (if m.held then none else some disturbedWrite)
+           else if r ≠ .ok then some "write/deadline call on an open handle did not succeed" else none
+         | .read =>
+           if r = .ok then some "unexpected read result"
+           else if r = .errTimeout ∧ m.ownRd.getD h false = false then some disturbedRead else none)
   | .fed none => (m, none)
   | .fed (some h) =>
     match m.isOpen[h]?, m.parked[h]? with
@@ -160,19 +211,33 @@ structure HMon where
   failedArm : Bool := false
   /-- last value written to the deadline register, as seen in the `setDl` events -/
   lastArmed : Bool := false
+  /-- writers called while NO abort was in progress and no context had been cancelled since the last quiescent
+      observation (a cancelled context may still bring its helper abort), and with no abort called since: such a
+      write is an innocent bystander — an abort deadline must never hit it -/
+  clean : List Nat := []
+  cancelSeen : Bool := false
   deriving DecidableEq, Repr
+
+def bystanderText (failedArm : Bool) : String :=
+  "write called while no abort was in progress timed out under an abort deadline" ++
+    (if failedArm then " after failed SetWriteDeadline(now)" else "")
 
 /-- The strict monitor over a recorded history. -/
 def histViolation (m : HMon) : List Ev → Option String
   | [] => none
   | e :: rest =>
     match e with
-    | .wcall _ _ _ => histViolation { m with writes := m.writes + 1 } rest
+    | .wcall i _ _ =>
+      histViolation { m with writes := m.writes + 1,
+                             clean := if m.aborts = 0 ∧ m.cancelSeen = false then i :: m.clean else m.clean } rest
+    | .cancel _ => histViolation { m with cancelSeen := true, clean := [] } rest
+    | .sockRet i .timeout =>
+      if m.clean.contains i then some (bystanderText m.failedArm) else histViolation m rest
     | .wret _ r probe =>
       if probe ∧ r ≠ .ok then
         some ("write issued at quiescence failed" ++ (if m.failedArm then " after failed SetWriteDeadline(now)" else ""))
       else histViolation { m with writes := m.writes - 1 } rest
-    | .acall _ => histViolation { m with aborts := m.aborts + 1 } rest
+    | .acall _ => histViolation { m with aborts := m.aborts + 1, clean := [] } rest
     | .aret _ _ => histViolation { m with aborts := m.aborts - 1 } rest
     | .setDl true true => histViolation { m with lastArmed := true } rest
     | .setDl true false => histViolation { m with failedArm := true } rest
@@ -183,7 +248,7 @@ def histViolation (m : HMon) : List Ev → Option String
       else
         match quiescentViolation { word := word, armed := armed || m.lastArmed, failedArm := m.failedArm } with
         | some why => some why
-        | none => histViolation m rest
+        | none => histViolation { m with cancelSeen := false } rest
     | .stuck => some "no progress: calls on the shared socket did not return"
     | _ => histViolation m rest
 
